@@ -124,10 +124,14 @@ def _astype(i, args, kw, node, fr):
     a = args[0]
     dt = args[1] if len(args) > 1 else kw.get("dtype")
     dname = dt.name if isinstance(dt, Builtin) else (dt.dotted.rsplit(".", 1)[-1] if isinstance(dt, ModuleRef) else str(dt))
+    if a.elem_sort == Str and not (isinstance(dt, Builtin) and dt.name in ("str", "str_")):
+        raise Unsupported("astype of a string array to a width-specific dtype (may truncate; only astype(str) is modelled)", node)
     if a.elem_sort == Val and dname == "float32":
         return pointwise_val(i, a, "float32", node)
     elem = dtype_arg(i, dt, node)
     if elem == a.elem_sort:
+        return copy_arr(i, a)
+    if a.elem_sort == Val and elem == SORT_OF[FLOAT_AS[0]]:
         return copy_arr(i, a)
     if a.elem_sort == Int and elem == Real:
         return define1(i, a.shape[0], Real, lambda k: z3.ToReal(z3.Select(a.data, k)), "astype")
